@@ -33,6 +33,7 @@ type Thread struct {
 	h, l   int
 	done   bool
 	lib    bool // started by the library (a rewritten go statement, a timer callback)
+	gen    int  // the replayed case this thread belongs to
 }
 
 var (
@@ -65,6 +66,7 @@ func goID() uint64 {
 func Start(list []Switch, lib bool) {
 	mu.Lock()
 	defer mu.Unlock()
+	gen++
 	sw = list
 	pos = 0
 	thr = nil
@@ -73,7 +75,7 @@ func Start(list []Switch, lib bool) {
 	libMode = lib
 	active = len(list) > 0
 	lastAct = time.Now()
-	t0 := &Thread{ID: 0, resume: make(chan struct{}, 1)}
+	t0 := &Thread{ID: 0, resume: make(chan struct{}, 1), gen: gen}
 	thr = append(thr, t0)
 	byG[goID()] = t0
 	if stopWD != nil {
@@ -90,6 +92,7 @@ func Start(list []Switch, lib bool) {
 func Stop() {
 	mu.Lock()
 	defer mu.Unlock()
+	gen++ // threads of the finished case that are still parked exit when woken (see stale)
 	active = false
 	if stopWD != nil {
 		close(stopWD)
@@ -175,6 +178,20 @@ func handover(from *Thread, to int, wait bool) {
 		case <-from.resume:
 		case <-time.After(3 * time.Second):
 		}
+		stale(from)
+	}
+}
+
+// gen counts the cases replayed in this process.  A controlled thread that wakes up after its case
+// has ended must not go on executing harness code: it would write into the state of the next case.
+var gen int
+
+func stale(t *Thread) {
+	mu.Lock()
+	old := t.gen != gen
+	mu.Unlock()
+	if old {
+		runtime.Goexit()
 	}
 }
 
@@ -268,7 +285,7 @@ func goThread(f func(), lib bool) {
 		go f()
 		return
 	}
-	t := &Thread{ID: len(thr), resume: make(chan struct{}, 1), lib: lib}
+	t := &Thread{ID: len(thr), resume: make(chan struct{}, 1), lib: lib, gen: gen}
 	thr = append(thr, t)
 	mu.Unlock()
 	started := make(chan struct{})
@@ -281,6 +298,7 @@ func goThread(f func(), lib bool) {
 		case <-t.resume:
 		case <-time.After(3 * time.Second):
 		}
+		stale(t)
 		defer func() {
 			mu.Lock()
 			t.done = true
